@@ -18,7 +18,7 @@ EXPLANATION = (
     "Context-receiving callee answered an error ends in a Pending return. Liveness in general and arithmetic that needs "
     "relational invariants (table classes inv / rb) are not decided beyond the stated reasons."
     " C06-a also explores HeaderPrefix::get/new with the literal table size every reachable caller passes and demands a guard (constant operands, dominating tests or interval arithmetic over the operand expression) for each site still reached, and checks the sibling agreement behind the audited `expect` of AcceptRecvStream::into_stream: every stream type for which it reads `id` is one for which poll_type answers Ready(Ok) only with `id` set.")
-RULES = "C06-a panic-site audit (A14/A1/A9 guards incl. interval arithmetic + audited table; get/new explored with the table size every reachable caller passes; sibling agreement into_stream/poll_type); C06-b Pending implies registered (A7); C06-c errors are not turned into Pending (A3)"
+RULES = "C06-a panic-site audit (A14/A1/A9 guards incl. interval arithmetic + audited table; get/new explored with the table size every reachable caller passes; sibling agreement into_stream/poll_type); C06-b Pending implies registered (A7); C06-c errors are not turned into Pending (A3); premise of the audited expects in poll_accept_recv (filter on is_some)"
 
 HERE = os.path.dirname(os.path.dirname(os.path.abspath(__file__)))
 ENTRY = [r'^h3::server::(connection::Connection|request::RequestResolver|request::ResolvedRequest|stream::RequestStream|builder::Builder)::[a-z_]+$',
